@@ -345,22 +345,215 @@ def inplace(it, op, cur, v):
     if isinstance(op, ast.BitOr) and isinstance(cur, SetV) and isinstance(v, SetV):
         cur.items.update(v.items)
         return cur
+    if isinstance(cur, K) and isinstance(cur.v, bytearray):
+        if isinstance(op, ast.Add):
+            try:
+                cur.v.extend(to_const(v))
+            except NotConst:
+                return None         # symbolic payload: the name is rebound to the concatenation term (aliases of the buffer are not tracked)
+            except TypeError:
+                raise RaiseEx('TypeError', 'bytearray +=')
+            return cur
+        if isinstance(op, ast.Mult) and isinstance(v, K):
+            cur.v[:] = cur.v * v.v
+            return cur
+    if isinstance(cur, SetV) and isinstance(v, SetV) and isinstance(op, (ast.BitAnd, ast.Sub, ast.BitXor)):
+        r = set_op(it, cur, {ast.BitAnd: 'intersection', ast.Sub: 'difference', ast.BitXor: 'symmetric_difference'}[type(op)], [v])
+        cur.items = r.items
+        return cur
     return None
 
 
-def dataclass_init(it, cls, inst, args, kw):
-    decs = set()
+def class_decorators(cls):
+    decs = {}
     for d in cls.node.decorator_list:
-        decs.add(d.id if isinstance(d, ast.Name) else d.attr if isinstance(d, ast.Attribute) else
-                 (d.func.id if isinstance(d, ast.Call) and isinstance(d.func, ast.Name) else ''))
+        call = d if isinstance(d, ast.Call) else None
+        f = d.func if call else d
+        name = f.id if isinstance(f, ast.Name) else f.attr if isinstance(f, ast.Attribute) else ''
+        decs[name] = {k.arg: k.value for k in call.keywords} if call else {}
+    return decs
+
+
+def dataclass_fields(it, cls):
+    """[(name, default expr or None)] over the MRO (base classes first)"""
+    out = {}
+    for c in reversed(it.prog.mro(cls)):
+        for n in c.node.body:
+            if isinstance(n, ast.AnnAssign) and isinstance(n.target, ast.Name):
+                ann = ast.unparse(n.annotation)
+                if 'ClassVar' in ann:
+                    continue
+                out[n.target.id] = (n.value, c)
+    return [(k, v[0], v[1]) for k, v in out.items()]
+
+
+def dataclass_init(it, cls, inst, args, kw):
+    decs = class_decorators(cls)
     if 'dataclass' not in decs:
         return False
-    fields = [n.target.id for n in cls.node.body if isinstance(n, ast.AnnAssign) and isinstance(n.target, ast.Name)]
-    for f, v in zip(fields, args):
-        inst.attrs[f] = v
-    for k, v in kw.items():
-        inst.attrs[k] = v
+    from .interp import Frame
+    fields = dataclass_fields(it, cls)
+    if len(args) > len(fields):
+        raise RaiseEx('TypeError', f'{cls.name}() takes {len(fields)} positional arguments but {len(args)} were given')
+    kw = dict(kw)
+    for i, (f, default, owner) in enumerate(fields):
+        if i < len(args):
+            if f in kw:
+                raise RaiseEx('TypeError', f'{cls.name}() got multiple values for {f}')
+            inst.attrs[f] = args[i]
+        elif f in kw:
+            inst.attrs[f] = kw.pop(f)
+        elif default is not None:
+            is_field = isinstance(default, ast.Call) and (getattr(default.func, 'id', None) == 'field' or getattr(default.func, 'attr', None) == 'field')
+            if is_field:
+                fk = {k.arg: k.value for k in default.keywords}
+                fr = Frame(owner.module, getattr(owner, 'closure', None), cls=owner)
+                if 'default_factory' in fk:
+                    inst.attrs[f] = it.call(it.ev(fk['default_factory'], fr), [], {}, default)
+                elif 'default' in fk:
+                    inst.attrs[f] = it.ev(fk['default'], fr)
+                else:
+                    raise RaiseEx('TypeError', f'{cls.name}() missing argument {f}')
+            else:
+                inst.attrs[f] = it.class_attr(cls, f, None)
+        else:
+            raise RaiseEx('TypeError', f'{cls.name}() missing argument {f}')
+    if kw:
+        raise RaiseEx('TypeError', f'{cls.name}() got an unexpected keyword argument {sorted(kw)[0]}')
+    c, m = it.prog.find_method(cls, '__post_init__')
+    if m is not None:
+        from .front import FuncRef
+        it.invoke(FuncRef(m, c.module, c), [inst], {})
     return True
+
+
+def dataclass_eq(it, a, b):
+    """the generated __eq__ of a dataclass (eq=True is the default): same class and equal field tuples; None = not a dataclass"""
+    if not (isinstance(a, Inst) and a.cls is not None):
+        return None
+    decs = class_decorators(a.cls)
+    if 'dataclass' not in decs:
+        return None
+    eq = decs['dataclass'].get('eq')
+    if eq is not None and isinstance(eq, ast.Constant) and eq.value is False:
+        return None
+    if not (isinstance(b, Inst) and b.cls is a.cls):
+        return K(False)
+    fa = ListV([a.attrs.get(f, K(None)) for f, _, _ in dataclass_fields(it, a.cls)], tup=True)
+    fb = ListV([b.attrs.get(f, K(None)) for f, _, _ in dataclass_fields(it, a.cls)], tup=True)
+    return it.cmp(ast.Eq(), fa, fb, None)
+
+
+class EnumMember:
+    """a member of an enum.Enum / IntEnum / IntFlag class of the package"""
+    not_none = True
+
+    def __init__(self, cls, name, value, is_int):
+        self.cls, self.name, self.value, self.is_int = cls, name, value, is_int
+
+    def abs_key(self):
+        return ('enum', self.cls.qual, self.name)
+
+    def abs_dkey(self, it):
+        return it.dkey(self.value) if self.is_int else ('enum', self.cls.qual, self.name)
+
+    def abs_attr(self, it, a, n):
+        if a == 'name':
+            return K(self.name)
+        if a in ('value', '_value_'):
+            return self.value
+        if a == '__class__':
+            return self.cls
+        r = it.class_attr(self.cls, a, self)
+        if r is not None:
+            return r
+        if self.is_int:
+            return it.getattr(self.value, a, n)
+        return None
+
+    def abs_isinstance(self, it, ty):
+        from .front import ClassRef
+        if isinstance(ty, ClassRef):
+            return it.prog.is_subclass(self.cls, ty.name)
+        if isinstance(ty, Builtin):
+            return self.is_int and ty.name == 'int'
+        return False
+
+    def abs_truth(self, it):
+        return it.truth(self.value) if self.is_int else True
+
+    def abs_binop(self, it, op, a, b, swapped):
+        if not self.is_int:
+            return None
+        a2 = a.value if isinstance(a, EnumMember) and a.is_int else a
+        b2 = b.value if isinstance(b, EnumMember) and b.is_int else b
+        return it.binop(op, a2, b2)
+
+    def abs_cmp(self, it, op, a, b, n):
+        if isinstance(op, (ast.Is, ast.IsNot)):
+            same = isinstance(a, EnumMember) and isinstance(b, EnumMember) and a.abs_key() == b.abs_key()
+            return K(same if isinstance(op, ast.Is) else not same)
+        if isinstance(op, (ast.In, ast.NotIn)):
+            return None
+        if self.is_int or (isinstance(a, EnumMember) and isinstance(b, EnumMember) and a.is_int and b.is_int):
+            a2 = a.value if isinstance(a, EnumMember) and a.is_int else a
+            b2 = b.value if isinstance(b, EnumMember) and b.is_int else b
+            if isinstance(a2, EnumMember) or isinstance(b2, EnumMember):
+                return K(isinstance(op, ast.NotEq)) if isinstance(op, (ast.Eq, ast.NotEq)) else None
+            return it.cmp(op, a2, b2, n)
+        if isinstance(op, (ast.Eq, ast.NotEq)):
+            same = isinstance(a, EnumMember) and isinstance(b, EnumMember) and a.abs_key() == b.abs_key()
+            return K(same if isinstance(op, ast.Eq) else not same)
+        return None
+
+    def __repr__(self):
+        return f'<{self.cls.name}.{self.name}>'
+
+
+_ENUM_BASES = {'Enum': False, 'IntEnum': True, 'IntFlag': True, 'Flag': False, 'StrEnum': False}
+
+
+def enum_kind(it, cls):
+    for b in it.prog.ext_bases(cls):
+        if b in _ENUM_BASES:
+            return b
+    return None
+
+
+def enum_members(it, cls):
+    cache = it.__dict__.setdefault('_enum_members', {})
+    if cls.qual in cache:
+        return cache[cls.qual]
+    from .interp import Frame
+    kind = enum_kind(it, cls)
+    out = {}
+    auto = 0
+    for n in cls.node.body:
+        if isinstance(n, ast.Assign) and len(n.targets) == 1 and isinstance(n.targets[0], ast.Name) and not n.targets[0].id.startswith('_'):
+            if isinstance(n.value, ast.Call) and getattr(n.value.func, 'id', getattr(n.value.func, 'attr', None)) == 'auto':
+                auto += 1
+                v = K(auto)
+            else:
+                fr = Frame(cls.module, getattr(cls, 'closure', None), cls=cls)
+                for k, m in out.items():
+                    fr.vars[k] = m.value if _ENUM_BASES[kind] else m
+                v = it.ev(n.value, fr)
+                if isinstance(v, K) and isinstance(v.v, int):
+                    auto = v.v
+            out[n.targets[0].id] = EnumMember(cls, n.targets[0].id, v, _ENUM_BASES[kind])
+    cache[cls.qual] = out
+    return out
+
+
+def enum_lookup(it, cls, value):
+    for m in enum_members(it, cls).values():
+        if it.eq3(m.value, value) is True:
+            return m
+    if isinstance(value, EnumMember) and value.cls is cls:
+        return value
+    if isinstance(value, K):
+        raise RaiseEx('ValueError', f'{value.v!r} is not a valid {cls.name}')
+    raise Fail(f'{cls.name}(symbolic value)')
 
 
 # ------------------------------------------------------------------ hashing
@@ -416,6 +609,231 @@ def digest_term(it, algo, log):
     return Term(algo, *out)
 
 
+# ------------------------------------------------------------------ constants in / out of the model
+class NotConst(Exception):
+    pass
+
+
+def bytearray_method(it, v, name, args, kw):
+    """K(bytearray) is a mutable constant: in-place methods act on the python object itself (identity is the K object)"""
+    try:
+        ca = [to_const(a) for a in args]
+    except NotConst:
+        raise Fail(f'bytearray.{name} with a symbolic argument')
+    if not hasattr(v.v, name):
+        return None
+    try:
+        r = getattr(v.v, name)(*ca)
+    except _PY_ERRORS as e:
+        raise RaiseEx(type(e).__name__, str(e)[:60])
+    return from_const(r)
+
+
+def to_const(v):
+    """model value -> python constant (deep); NotConst when any part is symbolic or an object with identity semantics we must keep"""
+    if isinstance(v, K):
+        return v.v
+    if isinstance(v, ListV):
+        items = [to_const(x) for x in v.items]
+        return tuple(items) if v.tup else items
+    if isinstance(v, PBits) and v.known() and v.view in ('str', 'bytes'):
+        return v.pat if v.view == 'str' else bytes(int(v.pat[i:i + 8], 2) for i in range(0, len(v.pat), 8))
+    raise NotConst()
+
+
+def from_const(x):
+    if isinstance(x, tuple):
+        return ListV([from_const(e) for e in x], tup=True)
+    if isinstance(x, list):
+        return ListV([from_const(e) for e in x])
+    if isinstance(x, dict):
+        d = DictV()
+        for k, e in x.items():
+            d.d[k] = from_const(e)
+            d.keyobj[k] = K(k)
+        return d
+    if isinstance(x, (set, frozenset)):
+        s_ = SetV()
+        for e in sorted(x, key=repr):
+            s_.items[e] = K(e)
+        return s_
+    return K(x)
+
+
+def _pure_ext_table():
+    import struct as _struct, operator as _operator, binascii as _ba, zlib as _zlib, itertools as _it, functools as _ft
+    t = {'struct.pack': _struct.pack, 'struct.unpack': _struct.unpack, 'struct.calcsize': _struct.calcsize, 'struct.unpack_from': _struct.unpack_from,
+         'binascii.hexlify': _ba.hexlify, 'binascii.unhexlify': _ba.unhexlify, 'binascii.crc_hqx': _ba.crc_hqx, 'binascii.crc32': _ba.crc32,
+         'binascii.b2a_hex': _ba.b2a_hex, 'binascii.a2b_hex': _ba.a2b_hex,
+         'zlib.crc32': _zlib.crc32, 'zlib.adler32': _zlib.adler32,
+         'itertools.product': lambda *a, **k: list(_it.product(*a, **k)), 'itertools.islice': lambda *a: list(_it.islice(*a)),
+         'itertools.zip_longest': lambda *a, **k: list(_it.zip_longest(*a, **k)), 'itertools.repeat': lambda *a: list(_it.repeat(*a)) if len(a) > 1 else None,
+         'itertools.chain.from_iterable': lambda a: list(_it.chain.from_iterable(a)), 'itertools.combinations': lambda *a: list(_it.combinations(*a)),
+         'itertools.permutations': lambda *a: list(_it.permutations(*a)), 'itertools.pairwise': lambda a: list(zip(a, a[1:])),
+         'itertools.count': None}
+    for nm in ('gcd', 'isqrt', 'lcm', 'log2', 'log', 'pow', 'sqrt', 'floor', 'ceil', 'trunc', 'fabs', 'log10', 'comb', 'factorial', 'prod'):
+        if hasattr(math, nm):
+            t['math.' + nm] = getattr(math, nm)
+    for nm in ('add', 'sub', 'mul', 'floordiv', 'mod', 'and_', 'or_', 'xor', 'lshift', 'rshift', 'neg', 'invert', 'not_', 'eq', 'ne', 'lt', 'le', 'gt', 'ge',
+               'truediv', 'pow', 'index', 'abs', 'concat', 'contains', 'getitem', 'truth'):
+        t['operator.' + nm] = getattr(_operator, nm)
+    return {k: v for k, v in t.items() if v is not None}
+
+
+_PURE_EXT = _pure_ext_table()
+_OPERATOR_AST = {'add': ast.Add, 'sub': ast.Sub, 'mul': ast.Mult, 'floordiv': ast.FloorDiv, 'mod': ast.Mod, 'and_': ast.BitAnd, 'or_': ast.BitOr,
+                 'xor': ast.BitXor, 'lshift': ast.LShift, 'rshift': ast.RShift, 'pow': ast.Pow, 'truediv': ast.Div}
+_OPERATOR_CMP = {'eq': ast.Eq, 'ne': ast.NotEq, 'lt': ast.Lt, 'le': ast.LtE, 'gt': ast.Gt, 'ge': ast.GtE}
+_PY_ERRORS = (ValueError, OverflowError, IndexError, KeyError, TypeError, ZeroDivisionError, AttributeError, UnicodeError)
+
+
+def pure_ext(it, dotted, args, kw, n):
+    """library functions without side effects: evaluated on constants by the checker's own python (constant folding); on symbolic
+    arguments the operator.* family is mapped to the interpreter's own operators.  None = not handled here"""
+    f = _PURE_EXT.get(dotted)
+    if f is not None:
+        try:
+            a = [to_const(x) for x in args]
+            k = {key: to_const(x) for key, x in kw.items()}
+        except NotConst:
+            a = None
+        if a is not None:
+            try:
+                r = f(*a, **k)
+            except Exception as e:
+                if isinstance(e, _PY_ERRORS) or type(e).__name__ == 'error':
+                    raise RaiseEx(type(e).__name__ if type(e).__name__ != 'error' else 'error', str(e)[:60])
+                raise
+            return from_const(r)
+    if dotted.startswith('operator.'):
+        nm = dotted.split('.')[1]
+        if nm in _OPERATOR_AST and len(args) == 2:
+            return it.binop(_OPERATOR_AST[nm](), args[0], args[1], n)
+        if nm in _OPERATOR_CMP and len(args) == 2:
+            return it.cmp(_OPERATOR_CMP[nm](), args[0], args[1], n)
+        if nm == 'getitem' and len(args) == 2:
+            return it.getitem(args[0], args[1], n)
+        if nm in ('itemgetter', 'attrgetter') and args and all(isinstance(a, K) for a in args):
+            keys = [a.v for a in args]
+
+            def getter(it_, a2, k2, node, _keys=keys, _nm=nm):
+                one = (lambda key: it_.getitem(a2[0], K(key), node)) if _nm == 'itemgetter' else (lambda key: it_.getattr(a2[0], key, node))
+                vals = [one(key) for key in _keys]
+                return vals[0] if len(vals) == 1 else ListV(vals, tup=True)
+            return Native(getter, dotted)
+    if dotted == 'functools.reduce':
+        items = it.iterate(args[1])
+        if items is None:
+            raise Fail('functools.reduce over an unknown iterable')
+        items = list(items)
+        if len(args) > 2:
+            acc = args[2]
+        elif items:
+            acc = items.pop(0)
+        else:
+            raise RaiseEx('TypeError', 'reduce() of empty iterable with no initial value')
+        for x in items:
+            acc = it.call(args[0], [acc, x], {}, n)
+        return acc
+    if dotted == 'functools.partial':
+        f0, a0, k0 = args[0], list(args[1:]), dict(kw)
+        return Native(lambda it_, a2, k2, node: it_.call(f0, a0 + list(a2), {**k0, **k2}, node), 'functools.partial')
+    if dotted in ('functools.wraps',):
+        return Native(lambda it_, a2, k2, node: a2[0], 'functools.wraps')
+    if dotted in ('itertools.chain.from_iterable',):
+        outer = it.iterate(args[0])
+        if outer is not None:
+            inner = [it.iterate(x) for x in outer]
+            if all(l is not None for l in inner):
+                return ListV([x for l in inner for x in l])
+    if dotted in ('itertools.islice',):
+        items = it.iterate(args[0])
+        if items is not None and all(isinstance(a, K) for a in args[1:]):
+            import itertools as _it
+            return ListV(list(_it.islice(items, *[a.v for a in args[1:]])))
+    if dotted in ('itertools.zip_longest',):
+        lists = [it.iterate(a) for a in args]
+        if all(l is not None for l in lists):
+            import itertools as _it
+            fill = kw.get('fillvalue', K(None))
+            return ListV([ListV(list(t), tup=True) for t in _it.zip_longest(*lists, fillvalue=fill)])
+    if dotted in ('itertools.product',):
+        lists = [it.iterate(a) for a in args]
+        if all(l is not None for l in lists) and isinstance(kw.get('repeat', K(1)), K):
+            import itertools as _it
+            return ListV([ListV(list(t), tup=True) for t in _it.product(*lists, repeat=kw.get('repeat', K(1)).v)])
+    if dotted in ('itertools.repeat',) and len(args) == 2 and isinstance(args[1], K):
+        return ListV([args[0]] * args[1].v)
+    if dotted in ('collections.OrderedDict', 'OrderedDict', 'collections.defaultdict', 'defaultdict'):
+        d = DictV()
+        src = args[0] if dotted.endswith('OrderedDict') and args else (args[1] if len(args) > 1 else None)
+        if dotted.endswith('defaultdict') and args and not (isinstance(args[0], K) and args[0].v is None):
+            d.default_factory = args[0]
+        if src is not None:
+            filled = builtin(it, 'dict', [src], {}, n)
+            if not isinstance(filled, DictV):
+                raise Fail(f'{dotted} from an unknown mapping')
+            d.d, d.keyobj = filled.d, filled.keyobj
+        for k_, x in kw.items():
+            d.d[k_] = x
+            d.keyobj[k_] = K(k_)
+        return d
+    if dotted in ('collections.Counter', 'Counter'):
+        d = DictV()
+        d.default_factory = Builtin('int')
+        items = it.iterate(args[0]) if args else []
+        if items is None:
+            raise Fail('Counter over an unknown iterable')
+        for x in items:
+            k_ = it.dkey(x)
+            d.d[k_] = it.binop(ast.Add(), d.d.get(k_, K(0)), K(1))
+            d.keyobj[k_] = x
+        return d
+    if dotted in ('collections.namedtuple', 'namedtuple') and len(args) >= 2:
+        try:
+            fields = to_const(args[1])
+        except NotConst:
+            raise Fail('namedtuple with symbolic field names')
+        if isinstance(fields, str):
+            fields = fields.replace(',', ' ').split()
+        return NamedTupleClass(to_const(args[0]), list(fields), kw.get('defaults'))
+    return None
+
+
+class NamedTupleClass:
+    """collections.namedtuple(...) / typing.NamedTuple class: instances are tuples (ListV tup=True) with field names"""
+    not_none = True
+
+    def __init__(self, name, fields, defaults=None):
+        self.name, self.fields, self.defaults = name, fields, defaults
+
+    def abs_key(self):
+        return ('namedtuple', self.name, tuple(self.fields))
+
+    def abs_call(self, it, args, kw, n):
+        vals = list(args)
+        dflt = it.iterate(self.defaults) if self.defaults is not None else []
+        for i, f in enumerate(self.fields[len(vals):], start=len(vals)):
+            if f in kw:
+                vals.append(kw[f])
+            elif dflt and i >= len(self.fields) - len(dflt):
+                vals.append(dflt[i - (len(self.fields) - len(dflt))])
+            else:
+                raise RaiseEx('TypeError', f'{self.name}() missing argument {f}')
+        if len(vals) != len(self.fields) or any(k not in self.fields for k in kw):
+            raise RaiseEx('TypeError', f'{self.name}() arguments')
+        r = ListV(vals, tup=True)
+        r.nt = self
+        return r
+
+    def abs_attr(self, it, a, n):
+        if a == '_fields':
+            return ListV([K(f) for f in self.fields], tup=True)
+        if a == '_make':
+            return Native(lambda it_, args, kw, node: self.abs_call(it_, it_.iterate(args[0]), {}, node), 'namedtuple._make')
+        return None
+
+
 # ------------------------------------------------------------------ external (library) calls
 def ext_call(it, dotted, args, kw, n):
     hook = getattr(it, 'ext_hook', None)
@@ -426,6 +844,9 @@ def ext_call(it, dotted, args, kw, n):
     last = dotted.split('.')[-1]
     if dotted in ('hashlib.sha256', 'hashlib.sha512', 'hashlib.sha1', 'hashlib.md5'):
         return Hasher(last, args[0] if args else None)
+    r = pure_ext(it, dotted, args, kw, n)
+    if r is not None:
+        return r
     if last == 'int2ba' and 'bitarray' in dotted:
         value = args[0]
         length = args[1] if len(args) > 1 else kw.get('length')
@@ -482,6 +903,10 @@ def ext_call(it, dotted, args, kw, n):
         return args[0]
     if dotted in ('typing.cast',):
         return args[1]
+    if dotted in ('enum.auto', 'auto'):
+        return Sym('enum.auto')
+    if dotted in ('dataclasses.field', 'field'):
+        return Term('ext:' + dotted, *args, *[Term('kw', K(k), v) for k, v in sorted(kw.items())])
     if dotted.startswith('typing.'):
         return Sym('typing')
     if dotted.startswith('logging.') or dotted.startswith('logger.'):
@@ -719,6 +1144,43 @@ _K_METHODS = ('hex', 'to01', 'decode', 'encode', 'lower', 'upper', 'replace', 's
 def value_attr(it, v, a, n):
     if isinstance(v, BA):
         return ba_methods(it, v, a, None)
+    if isinstance(v, ExcV):
+        if a in getattr(v, 'attrs', {}):
+            return v.attrs[a]
+        if a == 'args':
+            return ListV(list(v.args), tup=True)
+        cls = getattr(v, 'cls', None)
+        if cls is not None:
+            r = it.class_attr(cls, a, v)
+            if r is not None:
+                return r
+    if isinstance(v, ListV) and getattr(v, 'nt', None) is not None:
+        nt = v.nt
+        if a in nt.fields:
+            return v.items[nt.fields.index(a)]
+        if a == '_fields':
+            return ListV([K(f) for f in nt.fields], tup=True)
+        if a == '_replace':
+            def repl(it_, args, kw, node, _v=v):
+                vals = list(_v.items)
+                for k, x in kw.items():
+                    if k not in nt.fields:
+                        raise RaiseEx('ValueError', f'unexpected field {k}')
+                    vals[nt.fields.index(k)] = x
+                r = ListV(vals, tup=True)
+                r.nt = nt
+                return r
+            return Native(repl, 'namedtuple._replace')
+        if a == '_asdict':
+            def asd(it_, args, kw, node, _v=v):
+                d = DictV()
+                for f, x in zip(nt.fields, _v.items):
+                    d.d[f] = x
+                    d.keyobj[f] = K(f)
+                return d
+            return Native(asd, 'namedtuple._asdict')
+    if isinstance(v, K) and isinstance(v.v, (bytes, bytearray)) and a in ('tobytes', 'release', 'toreadonly'):
+        return Bound(v, Native(lambda it_, args, kw, node, _a=a: val_method(it_, args[0], _a, args[1:], kw, node), 'val.' + a))
     if isinstance(v, K) and not hasattr(v.v, a):
         raise RaiseEx('AttributeError', f'{type(v.v).__name__} object has no attribute {a}', n)
     if isinstance(v, (K, PBits, ListV, DictV, SetV, Sym, Term, PInt, ExcV, Cond)):
@@ -759,6 +1221,26 @@ def val_method(it, v, name, args, kw, node):
         return Term('to_bytes', v, b.get('length', K(1)), b.get('byteorder', K('big')), b.get('signed', K(False)))
     if isinstance(v, PInt) and name == 'bit_length':
         return atom(f'bit_length({v.p})')
+    if isinstance(v, K) and type(v.v) in (str, bytes, int, bool, float, tuple, frozenset, range) and name not in ('join', 'to_bytes') \
+            and not name.startswith('__') and hasattr(v.v, name):
+        # methods of immutable python values are pure: folded on constant arguments by the checker's own python
+        try:
+            ca = [to_const(a) for a in args]
+            ck = {k: to_const(x) for k, x in kw.items()}
+        except NotConst:
+            ca = None
+        if ca is not None:
+            try:
+                r = getattr(v.v, name)(*ca, **ck)
+            except _PY_ERRORS as e:
+                raise RaiseEx(type(e).__name__, str(e)[:60])
+            return from_const(r)
+    if isinstance(v, K) and isinstance(v.v, (bytes, bytearray)) and name in ('tobytes', 'release', 'toreadonly'):
+        return K(bytes(v.v)) if name == 'tobytes' else v if name == 'toreadonly' else K(None)      # memoryview is modelled as the bytes it views
+    if isinstance(v, K) and isinstance(v.v, bytearray):
+        r = bytearray_method(it, v, name, args, kw)
+        if r is not None:
+            return r
     if isinstance(v, K):
         if name in _K_METHODS and all(isinstance(a, K) for a in args) and all(isinstance(x, K) for x in kw.values()):
             try:
@@ -823,6 +1305,29 @@ def val_method(it, v, name, args, kw, node):
             d = DictV(dict(v.d))
             d.keyobj = dict(v.keyobj)
             return d
+        if name == 'clear':
+            v.d.clear()
+            v.keyobj.clear()
+            return K(None)
+        if name == 'popitem':
+            if not v.d:
+                raise RaiseEx('KeyError', 'popitem(): dictionary is empty')
+            k = next(reversed(v.d))
+            ko = v.keyobj.pop(k, K(k))
+            return ListV([ko, v.d.pop(k)], tup=True)
+        if name == 'move_to_end':
+            k = it.dkey(args[0])
+            if k in v.d:
+                v.d[k] = v.d.pop(k)
+            return K(None)
+        if name in ('__len__',):
+            return K(len(v.d))
+        if name in ('__contains__',):
+            r = it.contains(v, args[0])
+            if r is None:
+                raise Fail('dict membership undecided')
+            return K(r)
+        raise Fail(f'dict method {name} is not modelled')
     if isinstance(v, ListV):
         if name == 'popleft':
             try:
@@ -883,13 +1388,58 @@ def val_method(it, v, name, args, kw, node):
             raise Fail('sort of symbolic list')
         if name == 'count':
             return K(sum(1 for x in v.items if it.eq3(x, args[0]) is True))
+        if name == 'remove':
+            for i, x in enumerate(v.items):
+                r = True if x is args[0] else it.eq3(x, args[0])
+                if r is True:
+                    del v.items[i]
+                    return K(None)
+                if r is None:
+                    raise Fail('list.remove with an undecided comparison')
+            raise RaiseEx('ValueError', 'list.remove(x): x not in list')
+        if name in ('__len__',):
+            return K(len(v.items))
+        raise Fail(f'list/tuple method {name} is not modelled')
     if isinstance(v, SetV):
         if name == 'add':
             v.items[it.dkey(args[0])] = args[0]
             return K(None)
-        if name == 'discard' or name == 'remove':
+        if name == 'discard':
             v.items.pop(it.dkey(args[0]), None)
             return K(None)
+        if name == 'remove':
+            k = it.dkey(args[0])
+            if k not in v.items:
+                if it.contains(v, args[0]) is False:
+                    raise RaiseEx('KeyError', 'set.remove')
+                raise Fail('set.remove with an undecided membership')
+            v.items.pop(k)
+            return K(None)
+        if name in ('update', 'union', 'intersection', 'difference', 'symmetric_difference', 'issubset', 'issuperset', 'isdisjoint',
+                    'intersection_update', 'difference_update'):
+            others = []
+            for a in args:
+                items = it.iterate(a)
+                if items is None:
+                    raise Fail(f'set.{name} with an unknown iterable')
+                o = SetV()
+                for x in items:
+                    o.items[it.dkey(x)] = x
+                others.append(o)
+            return set_op(it, v, name, others)
+        if name == 'copy':
+            r = SetV()
+            r.items = dict(v.items)
+            return r
+        if name == 'clear':
+            v.items.clear()
+            return K(None)
+        if name == 'pop':
+            if not v.items:
+                raise RaiseEx('KeyError', 'pop from an empty set')
+            k = next(iter(v.items))
+            return v.items.pop(k)
+        raise Fail(f'set method {name} is not modelled')
     if isinstance(v, (Sym, Term)) and name in ('hex', 'decode', 'encode', 'lower', 'upper'):
         if isinstance(v, Term) and v.op == 'fromhex' and name == 'hex':
             return v.a[0]
@@ -904,11 +1454,50 @@ def val_method(it, v, name, args, kw, node):
     return Term(f'.{name}', v, *args)
 
 
+def set_op(it, v, name, others):
+    def known(x):
+        return all(not isinstance(k, tuple) or k[:1] not in (('sym',), ('t',), ('p',)) for k in x.items)
+    if name == 'update':
+        for o in others:
+            v.items.update(o.items)
+        return K(None)
+    if name == 'union':
+        r = SetV()
+        r.items = dict(v.items)
+        for o in others:
+            r.items.update(o.items)
+        return r
+    if not (known(v) and all(known(o) for o in others)):
+        raise Fail(f'set.{name} over symbolic members')
+    if name in ('intersection', 'intersection_update'):
+        keep = {k: x for k, x in v.items.items() if all(k in o.items for o in others)}
+    elif name in ('difference', 'difference_update'):
+        keep = {k: x for k, x in v.items.items() if not any(k in o.items for o in others)}
+    elif name == 'symmetric_difference':
+        o = others[0]
+        keep = {k: x for k, x in v.items.items() if k not in o.items}
+        keep.update({k: x for k, x in o.items.items() if k not in v.items})
+    elif name == 'issubset':
+        return K(all(k in others[0].items for k in v.items))
+    elif name == 'issuperset':
+        return K(all(k in v.items for k in others[0].items))
+    elif name == 'isdisjoint':
+        return K(not any(k in others[0].items for k in v.items))
+    else:
+        raise Fail(f'set.{name}')
+    if name.endswith('_update'):
+        v.items = keep
+        return K(None)
+    r = SetV()
+    r.items = keep
+    return r
+
+
 # ------------------------------------------------------------------ builtins
 _PURE = {'bin': bin, 'str': str, 'int': int, 'len': len, 'bool': bool, 'hex': hex, 'range': range, 'bytes': bytes,
          'min': min, 'max': max, 'abs': abs, 'ord': ord, 'chr': chr, 'bytearray': bytearray, 'sum': sum, 'float': float,
          'divmod': divmod, 'round': round, 'pow': pow, 'tuple': tuple, 'oct': oct, 'repr': repr, 'format': format}
-_TYPES = {'int': int, 'bool': bool, 'str': str, 'bytes': bytes, 'tuple': tuple, 'list': list, 'dict': dict,
+_TYPES = {'NoneType': type(None), 'int': int, 'bool': bool, 'str': str, 'bytes': bytes, 'tuple': tuple, 'list': list, 'dict': dict,
           'bytearray': bytearray, 'float': float, 'set': set, 'slice': slice, 'object': object, 'frozenset': frozenset, 'range': range}
 
 
@@ -946,6 +1535,16 @@ def builtin(it, name, args, kw, n):
     if name in ('list', 'tuple', 'sorted', 'reversed', 'set', 'frozenset') and args:
         items = it.iterate(args[0])
         if items is not None:
+            if name == 'sorted' and kw.get('key') is None and items and all(isinstance(x, Inst) and x.cls is not None and
+                                                                           it.prog.find_method(x.cls, '__lt__')[1] is not None for x in items):
+                import functools as _ft
+
+                def _cmp(x, y):
+                    if it.truth(it.cmp(ast.Lt(), x, y, n), n):
+                        return -1
+                    return 1 if it.truth(it.cmp(ast.Lt(), y, x, n), n) else 0
+                rev = kw.get('reverse')
+                return ListV(sorted(items, key=_ft.cmp_to_key(_cmp), reverse=bool(rev is not None and it.truth(rev))))
             if name == 'sorted':
                 if kw.get('key') is not None and not (isinstance(kw['key'], K) and kw['key'].v is None):
                     r = _sort_with_key(it, items, kw['key'], kw.get('reverse'), n)
@@ -983,7 +1582,8 @@ def builtin(it, name, args, kw, n):
         items = it.iterate(args[0])
         if items is None:
             return Term('enumerate', args[0])
-        start = _int(args[1], 'enumerate start') if len(args) > 1 else 0
+        st = args[1] if len(args) > 1 else kw.get('start')
+        start = _int(st, 'enumerate start') if st is not None else 0
         return ListV([ListV([K(i + start), x], tup=True) for i, x in enumerate(items)])
     if name == 'zip':
         lists = [it.iterate(a) for a in args]
@@ -1020,6 +1620,66 @@ def builtin(it, name, args, kw, n):
         return K(it.truth(v, n))
     if name == 'str' and args and isinstance(args[0], PBits):
         return bits_value(args[0].pat, 'str')
+    if name in ('str', 'repr') and args and isinstance(args[0], ExcV):
+        e = args[0]
+        cls = getattr(e, 'cls', None)
+        if cls is not None:
+            c, m = it.prog.find_method(cls, '__str__' if name == 'str' else '__repr__')
+            if m is not None:
+                from .front import FuncRef
+                return it.invoke(FuncRef(m, c.module, c), [e], {})
+        if name == 'str':
+            if len(e.args) == 0:
+                return K('')
+            if len(e.args) == 1:
+                return builtin(it, 'str', [e.args[0]], {}, n)
+        return Term(name, Sym(f'exc:{e.kind}'))
+    if name in ('str', 'repr', 'format') and args and isinstance(args[0], Inst) and args[0].cls is not None:
+        for dn in (('__str__', '__repr__') if name == 'str' else ('__format__', '__str__', '__repr__') if name == 'format' else ('__repr__',)):
+            c, m = it.prog.find_method(args[0].cls, dn)
+            if m is not None:
+                from .front import FuncRef
+                return it.invoke(FuncRef(m, c.module, c), [args[0]] + (list(args[1:]) if dn == '__format__' else []), {})
+    if name == 'memoryview' and args:
+        return args[0]
+    if name in ('map', 'filter') and len(args) >= 2:
+        lists = [it.iterate(a) for a in args[1:]]
+        if any(l is None for l in lists):
+            raise Fail(f'{name} over an unknown iterable')
+        f = args[0]
+        if name == 'map':
+            return ListV([it.call(f, list(t), {}, n) for t in zip(*lists)])
+        if isinstance(f, K) and f.v is None:
+            return ListV([x for x in lists[0] if it.truth(x, n)])
+        return ListV([x for x in lists[0] if it.truth(it.call(f, [x], {}, n), n)])
+    if name == 'dict' and args and not isinstance(args[0], DictV):
+        items = it.iterate(args[0])
+        if items is not None:
+            d = DictV()
+            for pair in items:
+                kv = it.iterate(pair)
+                if kv is None or len(kv) != 2:
+                    raise Fail('dict() from something that is not a sequence of pairs')
+                key = it.dkey(kv[0])
+                d.d[key] = kv[1]
+                d.keyobj[key] = kv[0]
+            for k_, x in kw.items():
+                d.d[k_] = x
+                d.keyobj[k_] = K(k_)
+            return d
+    if name == 'iter' and args:
+        items = it.iterate(args[0])
+        if items is None:
+            raise Fail('iter() over an unknown iterable')
+        r = ListV(list(items))
+        r.is_iter = True
+        return r
+    if name == 'next' and args and isinstance(args[0], ListV):
+        if args[0].items:
+            return args[0].items.pop(0)
+        if len(args) > 1:
+            return args[1]
+        raise RaiseEx('StopIteration', '')
     if name == 'int' and args:
         v = args[0]
         if isinstance(v, PBits) and v.view == 'str' and len(args) > 1 and isinstance(args[1], K) and args[1].v == 2:
@@ -1028,14 +1688,25 @@ def builtin(it, name, args, kw, n):
             return Term('int2', v)
         if isinstance(v, (PInt,)):
             return v
-        if isinstance(v, K):
+        if isinstance(v, K) and all(isinstance(a, K) for a in args[1:]) and all(isinstance(x, K) for x in kw.values()):
             try:
-                return K(int(v.v, *[a.v for a in args[1:]]) if len(args) > 1 else int(v.v))
+                return K(int(v.v, *[a.v for a in args[1:]], **{k: x.v for k, x in kw.items()}))
             except (ValueError, TypeError) as e:
                 raise RaiseEx(type(e).__name__, 'int()')
         if isinstance(v, Term) and v.op == 'bit':
             return v
         return Term('int', *args)
+    if name in ('bytes', 'bytearray', 'tuple', 'sum', 'min', 'max', 'divmod', 'str', 'repr', 'len', 'bool') and args and isinstance(args[0], ListV) \
+            and all(isinstance(x, K) for x in kw.values()):
+        try:
+            ca = [to_const(a) for a in args]
+        except NotConst:
+            ca = None
+        if ca is not None and name in _PURE and (name not in ('str', 'repr') or getattr(args[0], 'nt', None) is None):
+            try:
+                return from_const(_PURE[name](*ca, **{k: x.v for k, x in kw.items()}))
+            except _PY_ERRORS as e:
+                raise RaiseEx(type(e).__name__, str(e)[:60])
     if name in _PURE and all(isinstance(a, K) for a in args) and all(isinstance(x, K) for x in kw.values()):
         try:
             return K(_PURE[name](*[a.v for a in args], **{k: x.v for k, x in kw.items()}))
@@ -1050,7 +1721,7 @@ def builtin(it, name, args, kw, n):
         if isinstance(v, PInt):
             return Term('zeros', v)
     if name == 'bytearray' and not args:
-        return K(b'')
+        return K(bytearray())
     if name == 'setattr':
         o, k, v = args
         if isinstance(k, K):
@@ -1205,6 +1876,8 @@ def _isinst1(it, v, ty):
         r = hook(it, ty)
         if r is not None:
             return r
+    if isinstance(v, ExcV) and isinstance(ty, (ClassRef, Builtin)):
+        return it.exc_matches(v.kind, [ty.name], v)
     if isinstance(ty, ClassRef):
         if isinstance(v, Inst):
             return v.cls is not None and it.prog.is_subclass(v.cls, ty.name)
